@@ -71,6 +71,17 @@ Section C08.
     sum_bal dom (l_acc (fst st')) = sum_bal dom (l_acc (fst st)).
   Proof. exact (vtho_delta_block_lemma W O clause_result write_credit e dom txs st staking deleg used st' rcs). Qed.
 
+  (* 5b. per account (dom = [a]) and over any address set: exactly the payer is charged gasUsed x price (= r_paid, C07 gas_bounds),
+         exactly the beneficiary receives the reward, nobody else's VTHO moves unless a clause moves it *)
+  Theorem energy_delta_any_set e t ci st0 st rc dom :
+    let T := e_time e in let S := e_stop e in
+    clauses_neutral W O clause_result T S dom -> NoDup dom ->
+    exec_tx W O clause_result write_credit e t ci st0 = Done W O st rc ->
+    sum_eng T S dom (l_acc (fst st)) = sum_eng T S dom (l_acc (fst st0))
+        + (if member (e_benef e) dom then r_reward O rc else 0) - (if member (r_payer O rc) dom then r_paid O rc else 0) /\
+    sum_bal dom (l_acc (fst st)) = sum_bal dom (l_acc (fst st0)).
+  Proof. exact (energy_delta_any_set_lemma W O clause_result write_credit e t ci st0 st rc dom). Qed.
+
   (* 6. the payer is charged gasUsed x price (C07 gas_bounds) and the price is never below the block base fee *)
   Theorem price_ge_basefee e t ci st0 st rc bf :
     exec_tx W O clause_result write_credit e t ci st0 = Done W O st rc -> e_base_fee e = Some bf -> bf <= r_price O rc.
@@ -86,6 +97,15 @@ Theorem basefee_bounds galactica pnum gl gu pb :
   exists next, calc_base_fee galactica pnum gl gu pb = BfFee next /\
     initial_base_fee <= next /\ Z.abs (next - pb) <= pb / 8.
 Proof. exact (basefee_bounds_lemma galactica pnum gl gu pb). Qed.
+
+(* 7b. direction: a parent exactly at its gas target floor(75% of its gas limit) leaves the base fee unchanged; below the target
+       it never rises; above it strictly rises *)
+Theorem basefee_direction galactica pnum gl gu pb :
+  0 <= galactica -> galactica < pnum + 1 < two32 ->
+  min_gas_limit <= gl <= max_nowrap_gas_limit -> 0 <= gu <= gl -> initial_base_fee <= pb ->
+  exists next, calc_base_fee galactica pnum gl gu pb = BfFee next /\
+    (gu = gl * 75 / 100 -> next = pb) /\ (gu < gl * 75 / 100 -> next <= pb) /\ (gu > gl * 75 / 100 -> pb < next).
+Proof. exact (basefee_direction_lemma galactica pnum gl gu pb). Qed.
 
 Theorem basefee_first_galactica_block galactica pnum gl gu pb :
   pnum + 1 < two32 -> 0 <= pnum -> pnum + 1 = galactica -> calc_base_fee galactica pnum gl gu pb = BfFee initial_base_fee.
@@ -120,7 +140,9 @@ Print Assumptions ledger_untouched.
 Print Assumptions vtho_delta.
 Print Assumptions vtho_delta_tx.
 Print Assumptions vtho_delta_block.
+Print Assumptions energy_delta_any_set.
 Print Assumptions price_ge_basefee.
+Print Assumptions basefee_direction.
 Print Assumptions basefee_bounds.
 Print Assumptions basefee_first_galactica_block.
 Print Assumptions basefee_none_before_fork.
